@@ -79,6 +79,7 @@ type summary struct {
 	BehPanicsModel int            `json:"behaviours_model_predicts_panic"`
 	BehPanicsReal  int            `json:"behaviours_real_panic"`
 	MechConform    int            `json:"behaviours_mechanism_conformant"`
+	ConcLines      int            `json:"concurrent_lines"`
 	Views          int            `json:"views_rendered"`
 	ViewsByType    map[string]int `json:"views_by_type"`
 	Drift          []string       `json:"drift"`
@@ -1192,6 +1193,74 @@ func stageD(seed int64, thorough bool) {
 }
 
 // ---------------------------------------------------------------------------------------------
+// stage E: lines built concurrently by several goroutines (each line belongs to one goroutine; the pool and any
+// scratch storage of the appenders are shared). Every finished line is compared with its reference text.
+
+func stageE(seed int64, thorough bool) (bad int, first string) {
+	workers, iters := 8, 4000
+	if thorough {
+		iters = 40000
+	}
+	type res struct {
+		bad   int
+		first string
+	}
+	out := make(chan res, workers)
+	for w := 0; w < workers; w++ {
+		go func(w int) {
+			r := res{}
+			defer func() {
+				if p := recover(); p != nil {
+					r.bad++
+					if r.first == "" {
+						r.first = fmt.Sprintf("worker %d panicked: %v", w, p)
+					}
+				}
+				out <- r
+			}()
+			rng := rand.New(rand.NewSource(seed*977 + int64(w)))
+			for i := 0; i < iters; i++ {
+				iv := int(rng.Int63()>>uint(rng.Intn(63))) * (1 - 2*rng.Intn(2))
+				u := rng.Uint32() >> uint(rng.Intn(32))
+				ip := make(net.IP, 16)
+				rng.Read(ip)
+				for z := rng.Intn(5); z > 0; z-- {
+					g := rng.Intn(8)
+					ip[2*g], ip[2*g+1] = 0, 0
+				}
+				m := make(net.HardwareAddr, 6)
+				rng.Read(m)
+				bs := make([]byte, rng.Intn(12))
+				rng.Read(bs)
+				a := netip.AddrFrom4([4]byte{byte(rng.Intn(256)), byte(rng.Intn(256)), byte(rng.Intn(256)), byte(rng.Intn(256))})
+				d := time.Duration(rng.Int63() >> uint(rng.Intn(63)))
+				str := randText(rng, rng.Intn(20))
+				want := prefix + " \"c\" i=" + strconv.Itoa(iv) + " u=" + strconv.FormatUint(uint64(u), 10) + " ip=" + stdIPSlice(ip) +
+					" m=" + m.String() + " b=" + stdByteArray(bs) + " a=" + a.String() + " d=" + d.String() + " s=\"" + str + "\"" +
+					" h=" + fmt.Sprintf("0x%04x", uint16(u)) + " p=" + strconv.Itoa(int(uint16(iv)))
+				got := lg.Msg("c").Int("i", iv).Uint32("u", u).IPSlice("ip", ip).MAC("m", m).ByteArray("b", bs).IP("a", a).
+					Duration("d", d).String("s", str).Uint16Hex("h", uint16(u)).Uint16("p", uint16(iv)).ToString()
+				if got != want {
+					r.bad++
+					if r.first == "" {
+						r.first = fmt.Sprintf("worker %d line %d: got %q want %q", w, i, got, want)
+					}
+				}
+			}
+		}(w)
+	}
+	for w := 0; w < workers; w++ {
+		r := <-out
+		bad += r.bad
+		if first == "" {
+			first = r.first
+		}
+	}
+	sum.ConcLines += workers * iters
+	return
+}
+
+// ---------------------------------------------------------------------------------------------
 // -case
 
 func runCase(js string) int {
@@ -1268,6 +1337,18 @@ func runCase(js string) int {
 		r := runBehaviour(b, seed, w)
 		if r.failKey != "" {
 			fail(r.failKey, r.failWhat, nil)
+		}
+	case "concurrent":
+		cs := int64(1)
+		if n, ok := c["seed"].(json.Number); ok {
+			cs, _ = n.Int64()
+		}
+		th, _ := c["thorough"].(bool)
+		for attempt := int64(0); attempt < 5; attempt++ {
+			if bad, first := stageE(cs+attempt, th); bad > 0 {
+				fail("C20:concurrent", first, nil)
+				break
+			}
 		}
 	case "view":
 		vs := int64(1)
@@ -1393,6 +1474,10 @@ func main() {
 			}
 		}
 		stageD(seed, thorough)
+		if bad, first := stageE(seed, thorough); bad > 0 {
+			fail("C20:concurrent", fmt.Sprintf("%d lines built concurrently differ from their reference text; %s", bad, first),
+				map[string]interface{}{"op": "concurrent", "seed": seed, "thorough": thorough})
+		}
 	}
 	sum.Distinct = len(distinct)
 	out, _ := json.Marshal(sum)
